@@ -58,6 +58,11 @@ CLAIMED = {
    text="Seeded search over (target rows X, options) x histories of earlier lives of the same instance; the bytes written after Reset must equal those of a fresh instance, of a repeat in the warm process and of another goroutine. The digests of the first runs of each batch are recomputed in other processes by the purego build and by the accelerated build with AVX-512 / AVX2 disabled and must match.",
    note="Map-typed values and encryption are not generated (excepted by the property). Every life and the reference use identical options. CPU variants limited to what this machine can emulate via GODEBUG.",
    ref="DESIGN.md §4 C17"),
+ "C18": dict(level="fault_enumeration", engine="E2 fault enumerator",
+   technique="deterministic simulation with stored-byte and key fault injection on encrypted files: seeded crypto/rand stream, bit flips over the file image, module truncation, equal-length module swaps, transplants from a twin file with another file id, wrong/missing/failing keys; oracle = error or identical rows, mandatory error inside module envelopes",
+   text="For each seeded encrypted file (both footer modes, footer key only or per-column keys, AAD prefix on/off) the check verifies the round trip incl. a seek/read history, searches the file bytes for every high-entropy written value, and enumerates tampering cases; a full read that needs every module (page index, every row, every bloom filter) must fail, or - only for bytes outside any authenticated module - return exactly the original rows; a missing column key must fail that column only.",
+   note="Module envelopes are located by walking length prefixes (no keys needed); quick samples byte offsets (module starts/ends favoured) and caps swap pairs, thorough takes more or all. AES-GCM forgery probability is taken as negligible.",
+   ref="DESIGN.md §4 C18"),
  "C20": dict(level="exploration", engine="history + E3 scheduler (+race build)",
    technique="deterministic simulation: seeded Encode/Decode histories incl. failing decodes on shared codec values over a deterministic LIFO poisoning pool; concurrent configuration under a seeded one-at-a-time goroutine scheduler (synctest bubble, yield at every pool Get/Put) with the race detector kept effective; byte-slice reference model",
    text="Seeded search over codecs, inputs, destination-buffer shapes and histories (valid and failing decodes); Decode(Encode(x)) must equal x at every point and earlier results must not change. A third of the runs split the history over 2-4 tasks on the same codec value under the scheduler; a batch also runs under the race detector with scheduler hand-offs hidden from it.",
